@@ -24,7 +24,8 @@ type (
 		wg       sync.WaitGroup
 		hook     DispatchHook
 
-		cxns        []*clientCxn // open client connections, in the order accepted
+		cxns        []*clientCxn   // open client connections, in the order accepted
+		cxnWg       sync.WaitGroup // the accept loop and the open client connections
 		terminating bool
 
 		port            int
@@ -118,8 +119,10 @@ func (eng *RedisEmu) trackCxn(cc *clientCxn) {
 	eng.mu.Unlock()
 
 	eng.wg.Add(1)
+	eng.cxnWg.Add(1)
 	go func() {
 		defer eng.wg.Done()
+		defer eng.cxnWg.Done()
 		<-cc.done
 
 		eng.mu.Lock()
@@ -191,6 +194,8 @@ func (eng *RedisEmu) periodicSave() {
 				case <-eng.l.Done():
 					eng.l.Debug("saver loop canceled")
 					timer.Stop()
+					// the final save comes after the last command of the last client
+					eng.cxnWg.Wait()
 					eng.dss.save(eng.l)
 					return
 				case <-timer.C:
@@ -249,8 +254,10 @@ func (eng *RedisEmu) startServer() {
 	}
 
 	eng.wg.Add(1)
+	eng.cxnWg.Add(1)
 	go func() {
 		defer eng.wg.Done()
+		defer eng.cxnWg.Done()
 
 		// accept connections and process commands
 		for {
